@@ -9,10 +9,16 @@
    through the equality of the model's attack sets with the specification's attack relations (Proofs/AttackSpec.v: sliders by a
    generic characterisation plus a kernel-evaluated geometry check over 64 x 64 pairs; attacked = is_square_attacked;
    in_check = in_check_raw), and 'own king not attacked afterwards' through the placement refinement of C02.
-   COMPLETENESS (no legal move is missing, no duplicates) is kept visible in C01_full: it is NOT assumed anywhere; it is decided on
-   every run by the extracted monitors applied to the engine's answers (checks/chesscore.py). *)
+   COMPLETENESS and NO DUPLICATES, proved under the same invariant: every pseudo-legal move of the rules is generated
+   (Proofs/Complete.v: the converse walk through generate_moves, case by case on the kind of man, castling and pawn shapes), a
+   generated move that make_search_move refuses leaves the mover's king attacked on the board the rules obtain (Proofs/Rejected.v),
+   so every legal move is generated and accepted; the generated list never repeats a record (Proofs/NoDupGen.v, for all positions)
+   and two generated records denoting the same move of the rules are equal (Proofs/UmoveInj.v).  The capture-only list is the
+   capture sub-list of the full list (Proofs/Exact.v).  C01_full states the property as the run-time monitors phrase it; it holds
+   for the start position and everything reachable from it (C01_full_from_the_start_position).  The same extracted monitors are
+   applied on every run to the ENGINE's answers (checks/chesscore.py): that is the tie of these theorems to the code. *)
 From Coq Require Import NArith List Bool.
-From JV Require Import Model.Chess Model.Abs Spec.ChessSpec Proofs.MoveGenProofs Proofs.LegalInv Proofs.LegalInvB Proofs.AttackSpec Proofs.AbsMake Proofs.Soundness Proofs.Rejected.
+From JV Require Import Model.Chess Model.Abs Spec.ChessSpec Proofs.MoveGenProofs Proofs.LegalInv Proofs.LegalInvB Proofs.AttackSpec Proofs.GenProofs Proofs.RangeProofs Proofs.AbsMake Proofs.Soundness Proofs.Rejected Proofs.Complete Proofs.NoDupGen Proofs.UmoveInj Proofs.Exact Proofs.StartPos Proofs.SpecProofs.
 
 Theorem C01_legality_paths_agree : forall g all,
   filter (is_legal g) (generate_moves g all) = filter (made g) (generate_moves g all).
@@ -45,15 +51,74 @@ Theorem C01_make_verdict_is_the_rules_check_test : forall g all m, legal_inv g -
   (make_search_move g m = Illegal /\ ChessSpec.in_check (apply_board (abs g) (umove m)) (colr (white g)) = true).
 Proof. exact make_verdict. Qed.
 
-(* the full property, as the monitors state it (visible, not assumed, not yet proved for all wf positions) *)
-Definition C01_full : Prop := forall g, wf g = true ->
+(* ---- the full property: exactness, for every position that satisfies the invariant ---- *)
+(* completeness of generation: every pseudo-legal move of the rules is generated *)
+Theorem C01_every_pseudo_legal_move_is_generated : forall g sm, cons g -> range g -> pseudo (abs g) sm = true ->
+  exists m, In m (generate_moves g true) /\ umove m = sm.
+Proof. exact pseudo_generated. Qed.
+
+(* every legal move of the rules is generated and accepted by make_search_move *)
+Theorem C01_every_legal_move_is_accepted : forall g sm, legal_inv g -> legalb (abs g) sm = true ->
+  exists m g', In m (generate_moves g true) /\ umove m = sm /\ make_search_move g m = Made g'.
+Proof. exact legal_is_accepted. Qed.
+
+(* set equality with the rules' legal moves (all 64 x 64 x 5 candidates: ChessSpec.legal_moves_naive, SpecProofs) *)
+Theorem C01_legal_set_is_exact : forall g sm, legal_inv g ->
+  (In sm (map umove (legal_values g (generate_moves g true))) <-> In sm (ChessSpec.legal_moves (abs g))).
+Proof. exact legal_set_exact. Qed.
+
+(* ... which is the property's own quantifier: of all 64 x 64 x 5 candidate moves, exactly those the rules call legal *)
+Theorem C01_legal_set_is_the_candidate_filter : forall g sm, legal_inv g ->
+  (In sm (map umove (legal_values g (generate_moves g true))) <-> In sm (ChessSpec.legal_moves_naive (abs g))).
+Proof. intros g sm LI. rewrite (legal_set_exact g sm LI). apply legal_moves_is_naive. Qed.
+Theorem C01_legal_set_is_legalb : forall g sm, legal_inv g ->
+  (In sm (map umove (legal_values g (generate_moves g true))) <-> legalb (abs g) sm = true).
+Proof. intros g sm LI. rewrite (legal_set_exact g sm LI). apply legal_moves_spec. Qed.
+
+(* no duplicates: neither as move records, nor as moves of the rules *)
+Theorem C01_generated_records_distinct : forall g all, NoDup (generate_moves g all).
+Proof. exact generate_moves_NoDup. Qed.
+Theorem C01_no_duplicates : forall g all, legal_inv g -> NoDup (map umove (generate_moves g all)).
+Proof. exact generated_umoves_NoDup. Qed.
+
+(* the capture-only generator: the capture sub-list of the full list, in the same order; filtered, exactly the legal captures *)
+Theorem C01_capture_generator_is_capture_sublist : forall g, generate_moves g false = filter mcap (generate_moves g true).
+Proof. exact quiescence_list. Qed.
+Theorem C01_capture_set_is_exact : forall g sm, legal_inv g ->
+  (In sm (map umove (legal_values g (generate_moves g false))) <-> In sm (filter (is_capture (abs g)) (ChessSpec.legal_moves (abs g)))).
+Proof. exact capture_set_exact. Qed.
+
+(* the statement as the run-time monitors phrase it *)
+Theorem C01_full : forall g, legal_inv g ->
   mon_legal_set g (legal_values g (generate_moves g true)) = true /\
   mon_capture_set g (legal_values g (generate_moves g false)) = true.
+Proof. exact monitors_accept. Qed.
+Theorem C01_full_executable_hypothesis : forall g, legal_inv_b g = true ->
+  mon_legal_set g (legal_values g (generate_moves g true)) = true /\
+  mon_capture_set g (legal_values g (generate_moves g false)) = true.
+Proof. intros g H. apply monitors_accept. apply legal_inv_b_sound. exact H. Qed.
+(* not vacuous, and covering legal play: the start position satisfies the invariant, hence so does everything reachable from it *)
+Theorem C01_full_from_the_start_position : forall g, chess_reach start_game g ->
+  mon_legal_set g (legal_values g (generate_moves g true)) = true /\
+  mon_capture_set g (legal_values g (generate_moves g false)) = true.
+Proof. intros g H. apply monitors_accept. apply reachable_from_start_inv. exact H. Qed.
 
 Print Assumptions C01_legality_paths_agree.
 Print Assumptions C01_accepted_moves_are_legal.
 Print Assumptions C01_generated_moves_are_pseudo_legal.
 Print Assumptions C01_in_check_is_in_check.
 Print Assumptions C01_make_verdict_is_the_rules_check_test.
+Print Assumptions C01_every_pseudo_legal_move_is_generated.
+Print Assumptions C01_every_legal_move_is_accepted.
+Print Assumptions C01_legal_set_is_exact.
+Print Assumptions C01_legal_set_is_the_candidate_filter.
+Print Assumptions C01_legal_set_is_legalb.
+Print Assumptions C01_generated_records_distinct.
+Print Assumptions C01_no_duplicates.
+Print Assumptions C01_capture_generator_is_capture_sublist.
+Print Assumptions C01_capture_set_is_exact.
+Print Assumptions C01_full.
+Print Assumptions C01_full_executable_hypothesis.
+Print Assumptions C01_full_from_the_start_position.
 Print Assumptions C01_is_legal_iff_made.
 Print Assumptions C01_generated_flags.
